@@ -24,7 +24,7 @@ def ledger_pred(cfg, lines, obs):
     return out
 
 def run(ctx):
-    ok = ctx.lean(['AmcVerif.Props.C06', 'AmcVerif.Props.C06b', 'AmcVerif.Props.C06c'])
+    ok = ctx.lean(['AmcVerif.Props.C06', 'AmcVerif.Props.C06b', 'AmcVerif.Props.C06c'], extra_modules=['AmcVerif.Bridge.VecGlueBridge'])
     n = 60 if ctx.tier == 'quick' else 400
     if not ok:
         n *= 3
